@@ -5,6 +5,7 @@ go 1.25.3
 require (
 	filippo.io/age v1.2.1
 	go4.org v0.0.0-20230225012048-214862532bf5
+	golang.org/x/crypto v0.38.0
 	perkeep.org v0.0.0
 )
 
@@ -12,15 +13,22 @@ require (
 	cloud.google.com/go/compute/metadata v0.3.0 // indirect
 	github.com/bradfitz/latlong v0.0.0-20170410180902-f3db6d0dff40 // indirect
 	github.com/dustin/go-humanize v1.0.1 // indirect
+	github.com/ebitengine/purego v0.9.1 // indirect
 	github.com/edsrzf/mmap-go v1.1.0 // indirect
 	github.com/golang/snappy v0.0.4 // indirect
 	github.com/google/uuid v1.6.0 // indirect
+	github.com/gorilla/websocket v1.5.3 // indirect
+	github.com/hjfreyer/taglib-go v0.0.0-20151027170453-0ef8bba9c41b // indirect
 	github.com/mattn/go-isatty v0.0.20 // indirect
+	github.com/nf/cr2 v0.0.0-20140528043846-05d46fef4f2f // indirect
+	github.com/perkeep/heic v0.0.0-20260105010044-a57ca1ce101f // indirect
 	github.com/remyoudompheng/bigfft v0.0.0-20230129092748-24d4a6f8daec // indirect
 	github.com/rwcarlsen/goexif v0.0.0-20190401172101-9e8deecbddbd // indirect
 	github.com/syndtr/goleveldb v1.0.1-0.20210305035536-64b5b1c73954 // indirect
-	golang.org/x/crypto v0.38.0 // indirect
+	github.com/tetratelabs/wazero v1.9.0 // indirect
+	golang.org/x/image v0.27.0 // indirect
 	golang.org/x/net v0.40.0 // indirect
+	golang.org/x/oauth2 v0.30.0 // indirect
 	golang.org/x/sync v0.14.0 // indirect
 	golang.org/x/sys v0.33.0 // indirect
 	golang.org/x/text v0.25.0 // indirect
@@ -34,6 +42,7 @@ require (
 	modernc.org/sortutil v1.1.0 // indirect
 	modernc.org/sqlite v1.28.0 // indirect
 	modernc.org/zappy v1.0.3 // indirect
+	tailscale.com v1.90.9 // indirect
 )
 
 replace perkeep.org => /repo
